@@ -804,7 +804,8 @@ pub fn gen_big(rng: &mut Rng) -> Yaml {
 /// three of them on one field, as a list or as sequence entries: together they exceed the size
 /// limit of a regex set.
 fn gen_t7(rng: &mut Rng) -> Yaml {
-    let n = *rng.pick(&[60usize, 100, 140, 150, 200]);
+    // (60: three fit in a set; 100: two fit, three do not; 140: two do not)
+    let n = *rng.pick(&[60usize, 100, 100, 140]);
     let icase = rng.chance(1, 4);
     let pats: Vec<Yaml> = (0..2 + rng.below(2))
         .map(|i| ystr(&format!("{}?\\pL{{{}}}{}", if icase { "i" } else { "" }, n, ["x", "y", "z"][i % 3])))
@@ -841,7 +842,7 @@ pub fn gen_rule(rng: &mut Rng, k: &Knobs) -> Yaml {
     if k.has(F_T6) || rng.chance(1, 150) {
         return gen_t6(rng);
     }
-    if rng.chance(1, 300) {
+    if rng.chance(1, 800) {
         return gen_t7(rng);
     }
     if rng.chance(1, 5) {
